@@ -1,7 +1,9 @@
 package c20
 
 // Part B: the in-process CLI (`buf build|lint|breaking|format`) on scratch workspaces with planted
-// problems and on operational errors.
+// problems and on operational errors. Dimensions: planted set x input shape (how the input is referenced)
+// x workspace layout x command (including the switches that select where build/format send their result)
+// x --error-format.
 //
 // The reference model is the plant table below (what each planted problem must make each command
 // report), independent of buf; the renderings of one (workspace, command) in the five formats are
